@@ -104,3 +104,23 @@ V_ENSURES(V_IMP(g_pollinit_ret == 0 && g_ips_ret == 0 && g_tls_set_ret == 0, V_R
 V_ENSURES(V_IMP(!(g_pollinit_ret == 0 && g_ips_ret == 0 && g_tls_set_ret == 0), V_RET != 0 && g_tls == NULL && g.unref_calls == V_OLD(g.unref_calls) + 1 && g.memnew_calls == 1))   /*@C07.failed-creation-leaves-no-context-behind*/
 ;
 #endif
+
+#ifdef V_CTXDTOR_UNIT
+/* ctx_dtor(): what goes with the last reference to a context */
+V_CONTRACT int deregister_ctx_src(m_ctx_t *c, ev_src_t **src) V_REQUIRES(c == g_ctx && src == &g_ctx->tick.src) V_ASSIGNS(g.ctxsrc_dereg_calls, g_ctx->tick.src) V_ENSURES(g.ctxsrc_dereg_calls == V_OLD(g.ctxsrc_dereg_calls) + 1 && g_ctx->tick.src == NULL && g.ctxsrc_dereg_at_polldestroy == g.polldestroy_calls);
+V_CONTRACT int m_map_free(m_map_t **m) V_REQUIRES(m == &g_ctx->modules) V_ASSIGNS(g_ctx->modules, g.mapfree_calls) V_ENSURES(g.mapfree_calls == V_OLD(g.mapfree_calls) + 1 && g_ctx->modules == NULL);
+V_CONTRACT int poll_destroy(poll_priv_t *priv) V_REQUIRES(priv == &g_ctx->ppriv) V_ASSIGNS(g.polldestroy_calls) V_ENSURES(V_RET == 0 && g.polldestroy_calls == V_OLD(g.polldestroy_calls) + 1);
+V_CONTRACT int fs_destroy(m_ctx_t *c) V_REQUIRES(c == g_ctx) V_ASSIGNS() V_ENSURES(1);
+V_CONTRACT
+static void ctx_dtor(void *data)
+V_REQUIRES(v_base_ok() && data == (void *)g_ctx && V_RW_OK(g_ctx, sizeof(m_ctx_t)) && g_ctx->ppriv.data == g_ppdata && g_ppdata != NULL && g_fc0 == g_free_calls
+           && g_ctx->name == g_namebuf && g_ctx->userdata == (const void *)g_udbuf && g_namebuf != NULL && g_udbuf != NULL && g_namebuf != (char *)g_udbuf && (void *)g_namebuf != g_ppdata && (void *)g_udbuf != g_ppdata)
+V_ASSIGNS(g.ctxsrc_dereg_calls, g.ctxsrc_dereg_at_polldestroy, g_ctx->tick.src, g_ctx->modules, g.mapfree_calls, g.polldestroy_calls, g_free_calls, g_free_arg, g_free_arg0)
+V_FREES(g_ppdata, g_namebuf, g_udbuf)
+/* the tick source is removed while the poll set still exists (that is what closes its timer descriptor), then the poll descriptor goes: nothing the context opened survives it */
+V_ENSURES(g.ctxsrc_dereg_calls == V_OLD(g.ctxsrc_dereg_calls) + 1 && g.polldestroy_calls == V_OLD(g.polldestroy_calls) + 1 && g.ctxsrc_dereg_at_polldestroy == V_OLD(g.polldestroy_calls)
+          && g.mapfree_calls == V_OLD(g.mapfree_calls) + 1)                                                                                   /*@C20.everything-the-context-opened-is-closed-with-it*/
+/* name and user data are released exactly when the context was told to own them; the plugin's private block always */
+V_ENSURES(g_free_calls == g_fc0 + 1 + ((g_ctx->flags & M_CTX_NAME_AUTOFREE) ? 1 : 0) + ((g_ctx->flags & M_CTX_USERDATA_AUTOFREE) ? 1 : 0))             /*@C04.context-owned-strings-released-iff-autofree*/
+;
+#endif
